@@ -60,6 +60,8 @@ def check(run):
         overrides(run, F)
         accessors(run, F)
         lens_iters(run, F)
+        nm = mut_slices(run, F)
+        run.floor('API.slice-order', 'try_as_slice_mut impls (config %s)' % cfg, nm, {'base': 1, 'nd': 4, 'full': 4}.get(cfg, 1))
         wrappers(run, F, cfg)
         nobranch(run, F)
         nw = B.check_writes(run, F, head_of)
@@ -124,6 +126,8 @@ def accessors(run, F):
                         (['!self.as_slices().1.is_empty()'], 'NULL', []))
                 run.ob(rule, fn, key, t == w, fn.loc(), 'table %s' % dtree.show(t))
                 continue
+            if h in ('Vec', '[T]', '[T; N]'):
+                leaf = _whole(leaf)
             ok = want is not None and leaf in want and (h != 'Arc' or _wrapped_self_ok(fn, fn.name))
             run.ob(rule, fn, key, ok, fn.loc(), 'body `%s` (accepted %s)' % (leaf or src(fn.hir)[:60], want))
             continue
@@ -152,6 +156,54 @@ def accessors(run, F):
             continue
         ok = leaf in want and (h not in ('Arc',) or _wrapped_self_ok(fn, fn.name))
         run.ob('API.pass', fn, key, ok, fn.loc(), 'body `%s` (accepted %s)' % (leaf or src(fn.hir)[:60], want))
+
+
+SLICE_MUT = {
+    # backend head -> accepted canonical bodies of Vec1Mut::try_as_slice_mut (logical order)
+    'Vec': ['Some(self.as_mut_slice())', 'Some(self)'],
+    '[T]': ['Some(self)'], '[T; N]': ['Some(self)', 'Some(self.as_mut_slice())'],
+    'ndarray': ['self.as_slice_mut()'],
+}
+
+
+def _whole(leaf):
+    """the whole of a Vec / slice / array as a slice, however it is spelled"""
+    if leaf is None:
+        return None
+    for form in ('self[RangeFull{}]', 'self.as_mut_slice()', 'self.as_slice()', 'self.index(RangeFull{})',
+                 'self.index_mut(RangeFull{})', 'self.deref_mut()', 'self.deref()'):
+        leaf = leaf.replace(form, 'self')
+    return leaf
+
+
+def mut_slices(run, F):
+    """Vec1Mut::try_as_slice_mut: the in-place fast paths (sort) work on this slice, so it has
+    to be the logical order just like try_as_slice (ndarray: as_slice_mut, never the
+    memory-order slice; VecDeque: the first half only when the second is empty)"""
+    n = 0
+    for fn in F.fns:
+        if fn.kind != 'AssocFn' or not fn.impl_trait or fn.name != 'try_as_slice_mut' or \
+                not strip_generics(fn.impl_trait).endswith('Vec1Mut'):
+            continue
+        h = head_of(fn.impl_self)
+        t = N.tbl(fn)
+        key = '%s for %s' % (fn.name, N._short(fn.impl_self)[:50])
+        n += 1
+        if h == 'VecDeque':
+            w = N.T((['self.as_mut_slices().1.is_empty()'], 'Some(self.as_mut_slices().0)', []),
+                    (['!self.as_mut_slices().1.is_empty()'], 'NULL', []))
+            run.ob('API.slice-order', fn, key, t == w, fn.loc(), 'table %s' % dtree.show(t))
+            continue
+        leaf = N.one_leaf(t)
+        leaf = leaf.replace('v1::', '') if leaf is not None else None
+        want = SLICE_MUT.get(h)
+        if h in ('Vec', '[T]', '[T; N]'):
+            leaf = _whole(leaf)
+        ok = leaf == 'NULL' or (want is not None and leaf in want) or \
+            (h == 'Arc' and leaf == 'self.try_as_slice_mut()' and _wrapped_self_ok(fn, fn.name))
+        run.ob('API.slice-order', fn, key, ok, fn.loc(),
+               'body `%s` (accepted %s, or None)' % (leaf or src(fn.hir)[:60], want))
+    return n
 
 
 def lens_iters(run, F):
